@@ -25,7 +25,8 @@ TEETH = {
     "C11": [("feedback_skipped_in_disabled", "L1", {"C11_AllPublished", "C11_EveryMode"})],
 }
 PROBES = {
-    "C05": [("Probe_AutoWithMode", "L2"), ("Probe_Overrun", "L1"), ("Probe_SelectOverrides", "L2")],
+    "C05": [("Probe_AutoWithMode", "L2"), ("Probe_Overrun", "L1"), ("Probe_SelectOverrides", "L2"), ("Probe_SmGo", "L5"),
+            ("Probe_SmReqSurvivesDisable", "L5")],
     "C06": [("Probe_DirectSwitch", "L1"), ("Probe_Exited", "L1")],
     "C07": [("Probe_Swallow", "L1"), ("Probe_Crash", "L1")],
     "C10": [("Probe_ResetWritten", "L3")],
@@ -51,7 +52,7 @@ def nontrivial(prop, seen):
 
 REQUIRED_TAGS = {
     "C05": {"disabled/disabledPeriodic", "teleop/teleopPeriodic", "auto/teleopPeriodic", "test/testPeriodic",
-            "auto/auto.on_iteration", "teleop/execute", "auto/execute", "overrun"},
+            "auto/auto.on_iteration", "teleop/execute", "auto/execute", "overrun", "sm_go"},
     "C06": {"none/setup", "teleop/on_enable", "auto/on_enable", "disabled/on_disable", "teleop/on_disable",
             "auto/on_disable", "end"},
     "C07": {"swallow", "fatal"},
@@ -75,7 +76,7 @@ def mc_cfg(layouts, *, dev="{}", maxiter=4, maxchg=3, maxfaults=1, fms="{TRUE, F
 
 def sim_cfg(depth):
     return "\n".join([
-        "SPECIFICATION SimSpec", "CONSTANTS", "  Dev = {}", '  LayoutNames = {"L1", "L2", "L3", "L4"}',
+        "SPECIFICATION SimSpec", "CONSTANTS", "  Dev = {}", '  LayoutNames = {"L1", "L2", "L3", "L4", "L5"}',
         "  MaxIter = 1000", "  MaxChg = 10", "  MaxFaults = 2", "  FmsChoices = {TRUE, FALSE}",
         "  AdvChoices = {0, 21000}", "  AllowFmsToggle = TRUE", "  AllowEnd = TRUE",
         "  SimDepth = %d" % depth, "  Weight = 6", "CONSTRAINT Emit", "CONSTRAINT SimStop",
@@ -91,10 +92,12 @@ TIERS = {
     "quick": dict(n_random=480, n_sim=200, sim_depth=60, drivers=8, mc=[
         dict(layouts=["L1", "L2", "L3", "L4"], maxiter=4, maxchg=3, maxfaults=1),
         dict(layouts=["L1", "L2"], maxiter=3, maxchg=2, maxfaults=2, toggle="TRUE"),
+        dict(layouts=["L5"], maxiter=4, maxchg=3, maxfaults=1),
     ], mc_workers=8),
     "thorough": dict(n_random=16000, n_sim=4000, sim_depth=120, drivers=16, mc=[
         dict(layouts=["L1", "L2", "L3", "L4"], maxiter=6, maxchg=4, maxfaults=2, adv="{0, 21000}"),
         dict(layouts=["L1", "L2", "L3", "L4"], maxiter=5, maxchg=4, maxfaults=3, toggle="TRUE"),
+        dict(layouts=["L5"], maxiter=6, maxchg=4, maxfaults=2),
     ], mc_workers=16),
 }
 
@@ -157,6 +160,7 @@ def rename(job):
         "feedbacks": [{"o": cm.get(g["o"], g["o"]), "key": g["key"] + sfx,
                        "ty": (sh.get("fbtypes") or {}).get(g["key"], "int") if isinstance(sh.get("fbtypes"), dict) else "int"}
                       for g in sh["feedbacks"]],
+        "sm": [cm[c] for c in sh.get("sm", [])],
         "teleAuto": sh["teleAuto"], "modes": [mm[m] for m in sh["modes"]],
         "defmode": mm.get(sh["defmode"], sh["defmode"]), "period": sh["period"],
     }
@@ -168,6 +172,7 @@ def rename(job):
             if e.get("key"):
                 e["key"] = e["key"] + sfx
             e["w"] = [{"c": cm[w["c"]], "a": w["a"], "v": w["v"]} for w in e["w"]]
+            e["eng"] = [cm[c] for c in e.get("eng", [])]
         elif e["e"] == "sel":
             e["s"] = mm.get(e["s"], e["s"])
         evs.append(e)
